@@ -346,6 +346,7 @@ def _d1(ctx):
 
 
 def run(ctx):
+    C.require_locals(ctx, ctx.func('ArchSemantics.assign_tp_lt'), ['instruction_form', 'operands', 'reg_type', 'throughput', 'latency', 'latency_wo_load', 'assign_unknown', 'flags', 'port_number', 'instruction_data'])
     f = ctx.func(FN)
     blk, reg = _composed_block(ctx, f)
     _r1(ctx, f, blk, reg)
